@@ -324,14 +324,27 @@ def cell_feature(views):
     return "every non-final input's last vertex is in a cell"
 
 
-def data_feature(views):
+CLASH = "one name carries a float type on one input and an integer type on another"
+
+
+def name_kinds(views):
     kinds = {}
     for v in views:
         for d in v["data"]:
             kinds.setdefault((d["name"], d["assoc"]), set()).add((d["tname"], d["kind"]))
-    if any(len({k for _, k in s}) > 1 for s in kinds.values()):
-        return "one name carries a float type on one input and an integer type on another"
-    if any(len(s) > 1 for s in kinds.values()):
+    return kinds
+
+
+def clash_names(views):
+    """Names that carry types of different primitive kinds within the input list."""
+    return {na[0] for na, s in name_kinds(views).items() if len({k for _, k in s}) > 1}
+
+
+def data_feature(views, names):
+    """Stable description of how the given names are typed in the input list (part of the signature)."""
+    if set(names) & clash_names(views):
+        return CLASH
+    if any(len(s) > 1 for na, s in name_kinds(views).items() if na[0] in names):
         return "one name carries two types of the same kind"
     return "one type per name"
 
@@ -415,7 +428,7 @@ def judge(cls, views, merged):
     def key_of(d):
         return (d["name"], d["tname"], d["kind"], d["assoc"])
 
-    feature = data_feature(views)
+    clashing = clash_names(views)
     per_input = [[key_of(d) for d in v["data"]] for v in views]
     duplicated = any(len(set(keys)) != len(keys) for keys in per_input)
     got_keys = [key_of(d) for d in merged["data"]]
@@ -425,16 +438,16 @@ def judge(cls, views, merged):
         # told apart; only "concatenated in input order" is read: every input data's values
         # sit at that input's positions of some merged data of its name, type and association.
         missing = sorted({key for keys in per_input for key in keys if key not in got_keys})
+        lost_names = {k[0] for k in missing}
         if missing:
             out.append(
                 (
                     "data-one-per-name-type-association",
-                    feature,
+                    data_feature(views, lost_names),
                     {"missing": [list(k) for k in missing], "merged": [list(k) for k in got_keys],
                      "merged_data": jview(merged)["data"]},
                 )
             )
-        lost_names = {k[0] for k in missing}
         for k, v in enumerate(views):
             for d in v["data"]:
                 if d["name"] in lost_names:
@@ -446,6 +459,12 @@ def judge(cls, views, merged):
                     and _same(m["values"][start:start + n], d["values"])
                     for m in merged["data"]
                 ):
+                    if d["name"] in clashing:
+                        # values of one type ended in the data of another type of that name
+                        out.append(("data-one-per-name-type-association", CLASH,
+                                    {"input": k, "data": list(key_of(d)), "values": observe.norm(d["values"]),
+                                     "merged": jview(merged)["data"]}))
+                        return out
                     out.append(
                         (
                             "data-values-in-input-order",
@@ -471,7 +490,7 @@ def judge(cls, views, merged):
         out.append(
             (
                 "data-one-per-name-type-association",
-                feature,
+                data_feature(views, tainted),
                 {"expected": [list(k) for k in want_keys], "merged": [list(k) for k in got_keys],
                  "merged_data": jview(merged)["data"]},
             )
@@ -506,6 +525,13 @@ def judge(cls, views, merged):
             seg = vals[start:start + n]
             if not _is_nodata(seg, kind):
                 bad_nd.append({"ghost_cells_at": start, "merged": observe.norm(seg)})
+        if (bad_val or bad_nd) and name in clashing:
+            # values of one type ended in the data of another type of that name: not "per type"
+            if not any(c == "data-one-per-name-type-association" and w == CLASH for c, w, _ in out):
+                out.append(("data-one-per-name-type-association", CLASH,
+                            {"data": list(key), "wrong_values": bad_val, "not_no_data": bad_nd,
+                             "merged_data": jview(merged)["data"]}))
+            continue
         if bad_val:
             out.append(("data-values-in-input-order", f"{fam}:{assoc}", {"data": list(key), "bad": bad_val,
                                                                          "merged_values": observe.norm(vals)}))
